@@ -183,12 +183,20 @@ func VerifC08Ownership() {
 func VerifC08Escape() {
 	x := []byte{0x1B, 0x18, 'a', 'Z', '['}[zzverif.Choose("x", 5)]
 	p := verifNewParser("")
-	p.r = bufio.NewReader(&verifChunkReader{data: []byte{0x1B, x}, k: 1})
+	// the ESC arrives in the ground state, or inside a control string that has already
+	// consumed payload (an unterminated OSC or DCS): there it ends the string and is an ESC
+	// like any other
+	prefix := [][]byte{nil, []byte("\x1b]0;t"), []byte("\x1bP1$qx")}[zzverif.Choose("prefix", 3)]
+	data := append(append([]byte{}, prefix...), 0x1B, x)
+	p.r = bufio.NewReader(&verifChunkReader{data: data, k: 1})
 	step := func() {
 		r := p.readRune()
 		p.mu.Lock()
 		p.state = anywhere(r, p)
 		p.mu.Unlock()
+	}
+	for range prefix {
+		step()
 	}
 	step() // ESC
 	silence := zzverif.Bool("silence")
@@ -203,6 +211,12 @@ func VerifC08Escape() {
 		if c, ok := s.(C0); ok && c == 0x1B {
 			escapes++
 			continue
+		}
+		switch s.(type) {
+		case OSC, DCS:
+			if prefix != nil {
+				continue // the control string the ESC ended
+			}
 		}
 		rest = append(rest, s)
 	}
